@@ -32,9 +32,19 @@ keys; no injected fault) are exactly where the property is *false* of the pinned
 sibling cycles through a shared owner, D8: root-level computed keys), see `C01_partial_scope_needed`.
 In-place operators count as the assignment they reduce to (`inplaceCall`).  Function tasks are covered by
 `C01_set_value_function_tasks` and, over whole histories with `register` / `unregister`, by
-`C01_histories_function_tasks`; linear knobs (integer values) by `C01_knob_*` in their own scene.  Not covered by any
-theorem (correspondence and oracles only): a knob and an expression / function task triggered by the SAME assignment,
-`load` inside a C01 history, values other than ints and NaN (the model's value domain).
+`C01_histories_function_tasks`; linear knobs (integer values) by `C01_knob_*` in their own scene and, mixed with
+expression / function tasks in one triggered set, by `C01_mixed_*` (plain int assignments on a static graph).
+
+Limits of the knob / mixed theorems, none of which carries `_partial` in its name: leaf targets of different tasks must be
+pairwise incomparable, so two knobs acting on the SAME element — a normal use of knobs — are outside although the model
+(and the code) compute the right value; `KnobDecl` wants the whole owner chain of the source among the task's dependencies,
+which holds for knobs on members of a top-level container only; the mixed invariant `ConsistentM` has no establishing
+theorem along `register` / `setExpr` (`C01_knob_register` gives it for the new knob only).  Not covered by any theorem
+(correspondence and oracles only): `load` inside a C01 history, values other than ints and NaN (the model's value domain),
+a history-level "every other location keeps the last value assigned" (`C01_other_locations`, `MixedPost.frame` are one-step).
+What the driver EVALUATES per assignment line: `scope` (`callScopeB`), `scope_f` (`callOKFB`), `scope_m` (`mixedScopeB` on
+states holding a knob, int value, legal schedule, completed); the history-level tests (`goodRunFB`, `mixedRunB`,
+`mixedStaticB`, `consistentMB`) are sound (`*_sound`, `*_decided`) but are not run by the driver.
 
 **Which tree.**  The model transcribes `/repo` as it stands now: the pinned commit plus the `fix:` commits recorded in
 `/verif/KNOWN_FINDINGS.json` (status `fixed`).  Where a theorem below rests on repaired code — the repaired `unregister` behind `MInv`, the iterative DFS without recursion limit — it is false of
@@ -149,7 +159,8 @@ theorem C01_histories_function_tasks_unsettled (sched : Sched) (cs : List Call) 
     ConsistentU (unsettledAfter sched U s cs) (applyAll sched s cs) ∧ MInv (applyAll sched s cs) :=
   goodRunU_consistentU sched cs U s hi hc hg
 
-/-- … and decided: a history the driver accepts line by line -/
+/-- … and decided: `goodRunFB` is the Boolean form of `GoodRunF` (the driver evaluates its assignment part, `callOKFB`, line
+    by line; the `register` / `unregister` conditions and `unsettledAfter = []` are not evaluated on real histories) -/
 theorem C01_function_histories_decided (sched : Sched) (cs : List Call) (s : MState) (hi : MInv s) (hc : ConsistentF s)
     (h : goodRunFB sched s cs = true) : ConsistentF (applyAll sched s cs) :=
   C01F_decided sched cs s hi hc h
